@@ -30,7 +30,8 @@ func pathText(w []string, rot int) string {
 	for i, t := range w {
 		switch t {
 		case "a":
-			sb.WriteByte("abcxyzMQ"[(rot+i)%8])
+			// mixed case: the mailbox must arrive exactly as sent
+			sb.WriteByte("aBcXyZmQ"[(rot+i)%8])
 		case "1":
 			sb.WriteByte("0739"[(rot+i)%4])
 		case "h":
@@ -233,7 +234,7 @@ func init() {
 							wantAddr = txt[1 : len(txt)-1]
 						}
 					} else {
-						wantAddr = "p@x.test"
+						wantAddr = "Pq.Rs@X.Test"
 						line = prefix + "<" + wantAddr + ">"
 						for _, p := range c.W {
 							sp := paramTable[p]
